@@ -55,13 +55,14 @@ def sent(stub):
     return out
 
 
-def accept_all_reply(stub):
+def accept_all_reply(stub, refuse_classes=()):
     """receive() item for an AssociationRequester: accept every proposed context with its first
-    transfer syntax."""
+    transfer syntax (except those of `refuse_classes`: abstract syntax not supported)."""
     from pynetdicom2 import pdu as P
     rqs = [p for p in stub.sent_pdus() if getattr(p, 'pdu_type', None) == 1]
     tree = R.parse_pdu(rqs[-1].encode())
-    answers = [(i['id'], 0, i['ts'][0]['name']) for i in tree['items'] if i['type'] == 0x20]
+    answers = [(i['id'], 0, i['ts'][0]['name']) if i['abstract']['name'].decode() not in refuse_classes
+               else (i['id'], 3, b'') for i in tree['items'] if i['type'] == 0x20]
     stub.proposed = {i['id']: i['abstract']['name'].decode() for i in tree['items'] if i['type'] == 0x20}
     stub.request_tree = tree
     ac = F.assoc_ac_tree(contexts=answers, max_len=16384, called=tree['called'].strip(b' \0'),
@@ -74,7 +75,10 @@ class CooperativePeer(object):
     well-behaved peer would (C-STORE-RSP to a C-STORE-RQ, N-EVENT-REPORT-RSP,
     A-RELEASE-RP to an A-RELEASE-RQ)."""
 
-    def __init__(self, store_statuses=None, refuse=False, silent_on_release=False):
+    def __init__(self, store_statuses=None, refuse=False, silent_on_release=False, refuse_classes=(),
+                 silent_on_store=None):
+        self.refuse_classes = tuple(refuse_classes)   # contexts of these classes are not accepted
+        self.silent_on_store = silent_on_store        # this (0-based) C-STORE-RQ is never answered
         self.store_statuses = list(store_statuses or [])
         self.stores = []
         self.answered = 0
@@ -92,14 +96,19 @@ class CooperativePeer(object):
             if getattr(last, 'pdu_type', None) == 1:
                 if self.refuse:
                     return P.AAssociateRjPDU(1, 1, 7)
-                return accept_all_reply(stub)
+                return accept_all_reply(stub, self.refuse_classes)
         msgs = sent(stub)
-        if self.answered < len(msgs):
-            m = msgs[self.answered]
+        done = getattr(stub, '_peer_answered', 0)       # per provider: one peer object may serve several
+        if done < len(msgs):
+            m = msgs[done]
+            stub._peer_answered = done + 1
             self.answered += 1
             cmd = m['command']
             field = cmd.get(R.TAG_COMMAND_FIELD)
             if field == 0x0001:
+                if self.silent_on_store is not None and len(self.stores) == self.silent_on_store:
+                    self.stores.append({'ctx': m['ctx'], 'command': cmd, 'data': m['data'], 'unanswered': True})
+                    raise exceptions.DCMTimeoutError()
                 status = self.store_statuses.pop(0) if self.store_statuses else 0
                 self.stores.append({'ctx': m['ctx'], 'command': cmd, 'data': m['data'],
                                     'dest': getattr(stub, 'destination', None)})
